@@ -3,7 +3,7 @@ import ast
 import inspect
 import textwrap
 
-REGISTRY = {"contracts": {}, "preds": {}, "recs": {}, "schema": {}, "lemmas": {}}
+REGISTRY = {"contracts": {}, "preds": {}, "recs": {}, "schema": {}, "lemmas": {}, "ext_methods": {}}
 
 
 def reset():
@@ -50,3 +50,9 @@ def schema(d):
 
 def lemma(name, **kw):
     REGISTRY["lemmas"][name] = kw
+
+
+def external_method(name, returns):
+    """ASSUMED contract (A-EXT) of a method of a third-party object held in an attribute of kind 'ext': it returns a
+    value of the given kind or raises some Exception, and writes nothing the repository's objects can see."""
+    REGISTRY["ext_methods"][name] = returns
